@@ -220,10 +220,12 @@ def c11(tier):
         us.append(U(f"pull_graph:{integ}", "flow", "pull_graph", dict(integ=integ), timeout=300))
     Ks = 3 if tier == "quick" else 4
     for integ in ("generic", "rdflib"):
-        for phys in (1, 2):
+        for phys in (1, 2, 3):
             for fs in (1, 2):
                 for le in ([False] if tier == "quick" else [False, True]):
                     if tier == "quick" and integ == "rdflib" and fs == 2:
+                        continue
+                    if phys == 3 and tier == "quick" and (integ == "rdflib" or fs == 2):
                         continue
                     n = stall_len(integ, phys, Ks, fs, le)
                     parts = 4
@@ -247,7 +249,7 @@ def io_len(params):
 
 @prop("C09", functions=IO_FUNCS,
       bounds={"quick": {"schedule": "sched: first three raw reads limited to symbolic s1,s2,s3 each in 1..4 or unlimited; sched1: first read limited to any s1 >= 1; schedall: every read limited to one symbolic s >= 1 (all integers)",
-                        "streams": "3-statement delimited streams (frame_size 1, 2) and non-delimited, TRIPLES/QUADS, both integrations", "seekable": "BytesIO, buffered file, gzip, BufferedReader(FileIO) with symbolic buffer size"},
+                        "streams": "3-statement delimited streams (frame_size 1, 2) and non-delimited, TRIPLES/QUADS/GRAPHS, both integrations", "seekable": "BytesIO, buffered file, gzip, BufferedReader(FileIO) with symbolic buffer size"},
               "thorough": {"streams": "4 statements, leading empty frames"}},
       outside="sources violating the RawIOBase contract; schedules whose 5th and later reads are short are covered only by the uniform-limit units",
       explanation="H-IO-SCHED: a non-seekable RawIOBase double whose reads are limited by symbolic integers; result must equal the parse of the same bytes from memory")
@@ -267,6 +269,11 @@ def c09(tier):
                 if tier != "quick" or fs != 1:
                     us.append(U(f"schedall:{integ}:p{phys}:fs{fs}:d{int(delim)}", "iosched", "sched_all", base, timeout=300))
             us.append(U(f"seekable:{integ}:p{phys}", "iosched", "seekable", dict(integ=integ, phys=phys, K=K, fs=1), timeout=300))
+    for integ in (("generic",) if tier == "quick" else ("generic", "rdflib")):
+        base = dict(integ=integ, phys=3, K=K, fs=1, delimited=True)
+        base["len"] = io_len(base)
+        us.append(U(f"sched:{integ}:p3:fs1:d1", "iosched", "sched", base, timeout=300))
+        us.append(U(f"schedall:{integ}:p3:fs1:d1", "iosched", "sched_all", base, timeout=300))
     if tier != "quick":
         for integ in ("generic",):
             for phys in (1, 2):
@@ -277,7 +284,7 @@ def c09(tier):
 
 
 @prop("C10", functions=IO_FUNCS,
-      bounds={"quick": {"cut": "every byte offset 0..len (symbolic k) of 3-statement delimited streams, frame_size 1 and 2, TRIPLES/QUADS, both integrations; also with an empty frame in mid-stream and with frames >= 128 bytes (two-byte length prefixes)"},
+      bounds={"quick": {"cut": "every byte offset 0..len (symbolic k) of 3-statement delimited streams, frame_size 1 and 2, TRIPLES/QUADS/GRAPHS, both integrations; also with an empty frame in mid-stream and with frames >= 128 bytes (two-byte length prefixes)"},
               "thorough": {"cut": "4-statement streams, frame sizes 1,2,3, leading empty frames"}},
       outside="long streams (frame-at-a-time argument: a frame is decoded only after parse_length_prefixed returned it)",
       explanation="H-CUT: items yielded before end/exception are a prefix of the original sequence and contain every statement of every frame lying completely inside data[:k]")
@@ -285,8 +292,10 @@ def c10(tier):
     us = []
     K = 3 if tier == "quick" else 4
     for integ in ("generic", "rdflib"):
-        for phys in (1, 2):
+        for phys in (1, 2, 3):
             for fs in ((1, 2) if tier == "quick" else (1, 2, 3)):
+                if phys == 3 and tier == "quick" and (integ == "rdflib" or fs == 2):
+                    continue
                 for le in ([False] if tier == "quick" else [False, True]):
                     n = stall_len(integ, phys, K, fs, le)
                     us.append(U(f"cut:{integ}:p{phys}:fs{fs}:le{int(le)}", "iosched", "cut", dict(integ=integ, phys=phys, K=K, fs=fs, lead_empty=le, len=n), timeout=600))
